@@ -54,6 +54,12 @@ Definition w_stream_missing_since := [MReadStream "a" (Some (0%N, "bogus")) (-1)
 Lemma stream_missing_since_differs : redis_map_run cfP w_stream_missing_since <> mem_map_run cfP w_stream_missing_since.
 Proof. differ. Qed.
 
+(* ReadState with Limit 0 and a Revision of another epoch: Redis takes the ReadStream shortcut and
+   never looks at the revision, memory answers ErrorUnrecoverablePosition *)
+Definition w_state_limit0_rev := [pub "a" "k1" "d1" "N0"; MReadState "a" (Some (1%N, "bogus")) 0 "" false "N1" "N1"].
+Lemma state_limit0_rev_differs : redis_map_run cfP w_state_limit0_rev <> mem_map_run cfP w_state_limit0_rev.
+Proof. differ. Qed.
+
 (* ReadState on a missing channel with a Revision whose epoch is empty *)
 Definition w_state_missing_rev := [MReadState "a" (Some (0%N, "")) (-1) "" false "N0" "N0"].
 Lemma state_missing_rev_differs : redis_map_run cfP w_state_missing_rev <> mem_map_run cfP w_state_missing_rev.
